@@ -18,11 +18,11 @@
 (* blanks is not part of a case: every case is replayed under every layout   *)
 (* of Layouts (names rendered by the harness) and the reference does not     *)
 (* look at it, which *is* the statement "extra whitespace does not matter".  *)
-(* String comparison is lexicographic                                        *)
-(* over the character ranks of Order (code-point order of the characters     *)
-(* used; the harness re-checks that table against Python).  Numerals are     *)
-(* parsed here (sign, integer digits, optional point and <= 2 fraction       *)
-(* digits) into hundredths, so numeric comparison is exact integer           *)
+(* String comparison is lexicographic over the character ranks of Order      *)
+(* (code-point order of the characters used; the harness re-checks that      *)
+(* table and every reference verdict against Python str / Decimal).          *)
+(* Numerals are parsed here (sign, integer digits, optional point and <= 2   *)
+(* fraction digits) into hundredths, so numeric comparison is exact integer  *)
 (* arithmetic (all magnitudes far below 2^31).                               *)
 (*                                                                         *)
 (* Left open by the property, therefore NOT generated:                       *)
@@ -37,10 +37,10 @@
 (*  - values that are not str (an int value works with >= but makes          *)
 (*    <range-in> raise ValueError from ast.literal_eval; a real list makes   *)
 (*    <all-in> raise), <all-in> against something that is not a list         *)
-(*    literal of strings, more or fewer than four tokens after <range-in>;   *)
-(*  - layout "glued" (no blank between an operator and its first operand,    *)
-(*    ">=5") IS generated: the grammar is token-based and the meaning is     *)
-(*    unambiguous because operands never start with an operator.             *)
+(*    literal of strings, more or fewer than four tokens after <range-in>.   *)
+(* Layout "glued" (no blank between an operator and its first operand,       *)
+(* ">=5") IS generated: the grammar is token-based and the meaning is        *)
+(* unambiguous because operands never start with an operator.                *)
 (* One error outcome is kept because the library documents it in its own     *)
 (* message and examples: <range-in> with lo > hi is a TypeError.             *)
 (***************************************************************************)
@@ -243,8 +243,9 @@ InGrammar ==
   /\ c.op \in AllOps \cup {""}
   /\ \A i \in 1..Len(c.a) : Len(c.a[i]) >= 1 /\ ~StartsWithOp(c.a[i])
   /\ (c.op \in NumOps \cup {"<range-in>"} => IsNumeral(c.v) /\ \A i \in 1..Len(c.a) : IsNumeral(c.a[i]))
-  /\ Len(c.a) = (CASE c.op = "<range-in>" -> 2 [] c.op \in {"<or>", "<all-in>"} -> Len(c.a) [] OTHER -> 1)
-  /\ Len(c.a) \in 1..5
+  /\ (c.op = "<range-in>" => Len(c.a) = 2 /\ c.lb \in {"[", "("} /\ c.rb \in {"]", ")"})
+  /\ (c.op \in {"<or>", "<all-in>"} => Len(c.a) \in 1..5)
+  /\ (c.op \notin OtherOps \ {"<in>"} => Len(c.a) = 1)
 
 ASSUME Tables ==
   /\ Cardinality(AllOps) = 17 /\ Cardinality(OpSpell) = 17
